@@ -29,8 +29,10 @@ pub open spec fn fresh_cip<'d>() -> ACip<'d> {
 }
 // In the three step functions `tf` is the string table AFTER the record was processed: offsets are whatever the table assigned
 // (the order of interning is not specified), they only have to be the offsets of the record's strings in `tf`.
-pub open spec fn w_header<'d>(tf: StringTable, cur: ACip<'d>, key: &'d str, file_name: &'d str) -> ACip<'d> {
-    if key@ == "sourceFile"@ { ACip { class: Class { file_name_offset: off32(tf, file_name@), ..cur.class }, ..cur } } else { cur }
+// a `sourceFile` header sets the file of the class in progress; WITHOUT a value it clears it -- exactly what the mapper builder does
+// (`class.file_name = value`), so that cache and mapper agree (C02)
+pub open spec fn w_header<'d>(tf: StringTable, cur: ACip<'d>, key: &'d str, value: Option<&'d str>) -> ACip<'d> {
+    if key@ == "sourceFile"@ { ACip { class: Class { file_name_offset: match value { Some(file_name) => off32(tf, file_name@), None => absent() }, ..cur.class }, ..cur } } else { cur }
 }
 pub open spec fn w_class<'d>(tf: StringTable, original: &'d str, obfuscated: &'d str) -> ACip<'d> {
     ACip { name: obfuscated, class: Class { original_name_offset: off32(tf, original@), obfuscated_name_offset: off32(tf, obfuscated@), ..fresh_cip::<'d>().class }, ..fresh_cip() }
@@ -58,7 +60,7 @@ pub open spec fn w_flush<'d>(done: Map<&'d str, ACip<'d>>, cur: ACip<'d>) -> Map
 }
 pub open spec fn w_step<'d>(s: AWState<'d>, tf: StringTable, rec: ProguardRecord<'d>, next: Option<&ProguardRecord<'d>>) -> AWState<'d> {
     match rec {
-        ProguardRecord::Header { key, value: Some(file_name) } => AWState { cur: w_header(tf, s.cur, key, file_name), ..s },
+        ProguardRecord::Header { key, value } => AWState { cur: w_header(tf, s.cur, key, value), ..s },
         ProguardRecord::Class { original, obfuscated } => AWState { done: w_flush(s.done, s.cur), cur: w_class(tf, original, obfuscated) },
         ProguardRecord::Method { ty, original, obfuscated, arguments, original_class, line_mapping } =>
             AWState { cur: w_method(tf, s.cur, line_mapping, obfuscated, original, original_class, arguments, next), ..s },
@@ -326,19 +328,33 @@ pub open spec fn stored_member(lm: Option<LineMapping>, t: StringTable, obfuscat
     r3.props_all = ["C01", "C09"]
     r3.props_safety = ["C13"]
     r3.insert_at(0, "broadcast use axiom_str_ext;\n        ")
-    u.emit(r3, prefix="""fn region_writer_header_arm<'d>(current_class: &mut ClassInProgress<'d>, string_table: &mut StringTable, key: &'d str, file_name: &'d str)
+    # two shapes of the arm pattern: `Header { key, value }` (value-less sourceFile headers handled in the arm) or
+    # `Header { key, value: Some(file_name) }` (value-less headers fall through to the catch-all arm)
+    import re as _re
+    _hm = _re.search(r"ProguardRecord::Header\s*\{\s*(\w+)\s*,\s*value\s*(?::\s*Some\(\s*(\w+)\s*\))?\s*,?\s*\}", wf.orig)
+    if not _hm:
+        raise AnchorLost("write: pattern of the Header arm of unknown shape")
+    HKEY = _hm.group(1)
+    if _hm.group(2):
+        HPARAM, HVAL, HARG = "%s: &'d str" % _hm.group(2), "Some(%s)" % _hm.group(2), _hm.group(2)
+    else:
+        HPARAM, HVAL, HARG = "value: Option<&'d str>", "value", "value"
+    u.emit(r3, prefix="""fn region_writer_header_arm<'d>(current_class: &mut ClassInProgress<'d>, string_table: &mut StringTable, %(key)s: &'d str, %(param)s)
     ensures
-        /*@L:source_file_header_sets_the_file_of_the_current_class:C01,C09*/ if key@ == "sourceFile"@ {
-                offset_of(*final(string_table), file_name@) is Some && final(current_class).class.file_name_offset == offset_of(*final(string_table), file_name@)->0 as u32
+        /*@L:source_file_header_sets_or_clears_the_file_of_the_current_class:C01,C09,C02*/ if %(key)s@ == "sourceFile"@ {
+                match %(val)s {
+                    Some(f) => offset_of(*final(string_table), f@) is Some && final(current_class).class.file_name_offset == offset_of(*final(string_table), f@)->0 as u32,
+                    None => final(current_class).class.file_name_offset == absent() && *final(string_table) == *old(string_table),
+                }
             } else { final(current_class).class.file_name_offset == old(current_class).class.file_name_offset && *final(string_table) == *old(string_table) },
         wf_cip(*old(current_class)) ==> wf_cip(*final(current_class)),
         final(current_class).name == old(current_class).name && final(current_class).unique_methods == old(current_class).unique_methods,
         final(current_class).class.members_len == old(current_class).class.members_len && final(current_class).class.members_by_params_len == old(current_class).class.members_by_params_len,
-        /*@L:header_record_is_one_step_of_the_abstract_writer:C02*/ abs_cip(*final(current_class)) == w_header(*final(string_table), abs_cip(*old(current_class)), key, file_name),
+        /*@L:header_record_is_one_step_of_the_abstract_writer:C02*/ abs_cip(*final(current_class)) == w_header(*final(string_table), abs_cip(*old(current_class)), %(key)s, %(val)s),
         forall|x: Seq<char>| #[trigger] offset_of(*old(string_table), x) is Some ==> offset_of(*final(string_table), x) == offset_of(*old(string_table), x),
 {
     let ghost t0_ = *string_table; let ghost cc0_ = *current_class;
-""", suffix="\n    proof { lemma_acip_ext(abs_cip(*current_class), w_header(*string_table, abs_cip(cc0_), key, file_name)); }\n}\n")
+""" % dict(key=HKEY, param=HPARAM, val=HVAL), suffix="\n    proof { lemma_acip_ext(abs_cip(*current_class), w_header(*string_table, abs_cip(cc0_), %s, %s)); }\n}\n" % (HKEY, HVAL))
     # ---------------- final flush after the loop: the last class is stored like every other one ----------------
     # the final flush = the first `if .. {` statement after the record loop (structural anchor: any condition text)
     _lp = wf.loops()
@@ -408,7 +424,7 @@ pub open spec fn all_wf<'d>(m: Map<&'d str, ClassInProgress<'d>>) -> bool { fora
         cw.replace_span(ra - off, rb - off, "region_writer_method_arm(line_mapping, &mut string_table, &mut current_class, obfuscated, original, original_class, arguments, shim_peek(&mut records));",
                         "R11", "arm body => call of the region function that was verified from this very text")
         cw.replace_span(a2 - off, b2 - off, "current_class = region_writer_class_arm(&mut classes, current_class, &mut string_table, original, obfuscated);", "R11")
-        cw.replace_span(a3 - off, b3 - off, "region_writer_header_arm(&mut current_class, &mut string_table, key, file_name);", "R11")
+        cw.replace_span(a3 - off, b3 - off, "region_writer_header_arm(&mut current_class, &mut string_table, %s, %s);" % (HKEY, HARG), "R11")
         if flush_found:
             cw.replace_span(fa - off, fb - off, """let ghost classes0 = bmap(classes); let ghost cc0 = current_class;
         region_writer_final_flush(&mut classes, current_class);
